@@ -99,6 +99,116 @@ func c12Invoke(v ssa.Value, method string) (ssa.Value, *ssa.Call) {
 	return call.Call.Value, call
 }
 
+// c12Tee describes a writer value as a tee: what it finally writes to (sinks),
+// the digester whose Hash() is fed alongside, and whether a gzip.Writer sits on top.
+// Sinks and Digester are values of the function in which the queried value lives.
+type c12Tee struct {
+	Gzip     bool
+	Sinks    []ssa.Value
+	Digester ssa.Value
+}
+
+// c12Unwrap understands
+//
+//	io.MultiWriter(sink…, d.Hash())
+//	gzip.NewWriter(<tee>)
+//	result #i of an in-package helper whose returns are such a construction over
+//	its parameters and which also returns the digester (as result #j).
+func c12Unwrap(v ssa.Value, depth int) *c12Tee {
+	if depth > 3 {
+		return nil
+	}
+	rs := Roots(v)
+	if len(rs) != 1 {
+		return nil
+	}
+	switch r := rs[0].(type) {
+	case *ssa.Call:
+		switch CalleeName(r) {
+		case "compress/gzip.NewWriter":
+			if in := c12Unwrap(r.Call.Args[0], depth+1); in != nil && !in.Gzip {
+				return &c12Tee{Gzip: true, Sinks: in.Sinks, Digester: in.Digester}
+			}
+			return nil
+		case "io.MultiWriter":
+			var els []ssa.Value
+			c11SliceElems(r.Call.Args[0], &els)
+			t := &c12Tee{}
+			for _, e := range els {
+				e = strip(e)
+				isHash := false
+				for _, rt := range Roots(e) {
+					if recv, _ := c12Invoke(rt, "Hash"); recv != nil {
+						t.Digester = recv
+						isHash = true
+					}
+				}
+				if !isHash {
+					t.Sinks = append(t.Sinks, e)
+				}
+			}
+			if t.Digester == nil {
+				return nil
+			}
+			return t
+		}
+	case *ssa.Extract:
+		hc, ok := r.Tuple.(*ssa.Call)
+		if !ok {
+			return nil
+		}
+		H := StaticCallee(hc)
+		if H == nil || !inModule(H) || len(H.Blocks) == 0 {
+			return nil
+		}
+		var out *c12Tee
+		for _, ret := range Returns(H) {
+			res := ret.Results[r.Index]
+			if k, isConst := res.(*ssa.Const); isConst && k.Value == nil {
+				continue // nil writer next to an error
+			}
+			u := c12Unwrap(res, depth+1)
+			if u == nil {
+				return nil
+			}
+			// the digester must be handed back too
+			j := -1
+			for k := range ret.Results {
+				if k != r.Index && c11SameRoots(ret.Results[k], u.Digester) {
+					j = k
+				}
+			}
+			dg := ResultOf(hc, j)
+			if j < 0 || dg == nil {
+				return nil
+			}
+			t := &c12Tee{Gzip: u.Gzip, Digester: dg}
+			for _, sk := range u.Sinks {
+				mapped := false
+				for _, rt := range Roots(sk) {
+					if prm, isP := rt.(*ssa.Parameter); isP {
+						for k, q := range H.Params {
+							if q == prm && k < len(hc.Call.Args) {
+								t.Sinks = append(t.Sinks, hc.Call.Args[k])
+								mapped = true
+							}
+						}
+					}
+				}
+				if !mapped {
+					return nil
+				}
+			}
+			if out != nil && (out.Gzip != t.Gzip || len(out.Sinks) != len(t.Sinks)) {
+				return nil
+			}
+			out = t
+		}
+		return out
+	}
+	return nil
+}
+
 // c12MultiWriterElems: if v is io.MultiWriter(a, b, …) returns the stripped elements.
 func c12MultiWriterElems(v ssa.Value) ([]ssa.Value, bool) {
 	rs := Roots(v)
@@ -135,9 +245,34 @@ func runC12(c *Ctx) {
 func c12R1Dir(c *Ctx, fns []*ssa.Function) {
 	const R1 = "C12.R1.descriptor-describes-bytes"
 	c.Expect(R1, 12)
-	ds := c12FnsCalling(fns, "compress/gzip.NewWriter")
+	// directory packer: fills in Descriptor.Digest and holds a *gzip.Writer (made by gzip.NewWriter directly
+	// or by an in-package helper that wires writer and digester together)
+	var ds []*ssa.Function
+	gzOf := map[*ssa.Function]ssa.Value{}
+	for _, f := range fns {
+		if f.Parent() != nil || len(c12FieldStores(f, c12Desc, "Digest")) == 0 {
+			continue
+		}
+		AllInstrs(f, func(in ssa.Instruction) {
+			v, ok := in.(ssa.Value)
+			if !ok || gzOf[f] != nil || v.Type().String() != "*compress/gzip.Writer" {
+				return
+			}
+			switch in.(type) {
+			case *ssa.Call, *ssa.Extract:
+				if u := c12Unwrap(v, 0); u != nil && u.Gzip {
+					gzOf[f] = v
+				} else if call, isCall := in.(*ssa.Call); isCall && CalleeName(call) == "compress/gzip.NewWriter" {
+					gzOf[f] = v
+				}
+			}
+		})
+		if gzOf[f] != nil {
+			ds = append(ds, f)
+		}
+	}
 	if len(ds) == 0 {
-		c.LostAnchor(R1, "directory packer: function of ~/content/file calling gzip.NewWriter")
+		c.LostAnchor(R1, "directory packer: function of ~/content/file that fills in Descriptor.Digest and writes through a gzip.Writer")
 		return
 	}
 	annDigest, ok1 := c12ConstStr(c.P, "AnnotationDigest")
@@ -148,22 +283,21 @@ func c12R1Dir(c *Ctx, fns []*ssa.Function) {
 	}
 	for _, D := range ds {
 		dn := FnName(D)
-		gzw := CallsTo(D, "compress/gzip.NewWriter")[0].(*ssa.Call)
+		gzw := gzOf[D]
 		// (a) gzip sink
 		var file, gzDigester ssa.Value
-		if els, ok := c12MultiWriterElems(gzw.Call.Args[0]); ok {
-			for _, e := range els {
+		if u := c12Unwrap(gzw, 0); u != nil && u.Gzip {
+			gzDigester = u.Digester
+			for _, e := range u.Sinks {
 				for _, r := range Roots(e) {
-					if recv, _ := c12Invoke(r, "Hash"); recv != nil {
-						gzDigester = recv
-					} else if strings.HasSuffix(r.Type().String(), "*os.File") {
+					if strings.HasSuffix(r.Type().String(), "*os.File") {
 						file = e
 					}
 				}
 			}
 		}
 		okSink := file != nil && gzDigester != nil
-		c.Check(R1, dn+"|gzip-sink-is-file-and-digester", gzw.Pos(), okSink,
+		c.Check(R1, dn+"|gzip-sink-is-file-and-digester", D.Pos(), okSink,
 			ifelse(okSink, "gzip.NewWriter writes to io.MultiWriter(temp file, digester.Hash())", "the compressed stream is not teed into both the temp file and a digester: the descriptor digest cannot be the digest of the stored bytes"))
 		if !okSink {
 			continue
@@ -252,20 +386,20 @@ func c12R1Dir(c *Ctx, fns []*ssa.Function) {
 			}
 			tarCall = call
 			for _, a := range call.Common().Args {
-				els, ok := c12MultiWriterElems(a)
-				if !ok {
+				if !types.IsInterface(a.Type()) {
+					continue
+				}
+				u := c12Unwrap(a, 0)
+				if u == nil || u.Gzip {
 					continue
 				}
 				hasGz := false
-				for _, e := range els {
-					for _, r := range Roots(e) {
-						if r == ssa.Value(gzw) {
-							hasGz = true
-						} else if recv, _ := c12Invoke(r, "Hash"); recv != nil {
-							tarDigester = recv
-						}
+				for _, e := range u.Sinks {
+					if c11SameRoots(e, gzw) {
+						hasGz = true
 					}
 				}
+				tarDigester = u.Digester
 				okTar = hasGz && tarDigester != nil && !c11SameRoots(tarDigester, gzDigester)
 			}
 		}
@@ -702,7 +836,7 @@ func c12R2(c *Ctx, fns []*ssa.Function) {
 						for _, sv := range Calls(g, func(string) bool { return true }) {
 							sf := StaticCallee(sv)
 							svc, isCall := sv.(*ssa.Call)
-							if sf == nil || !isCall || len(CallsTo(sf, "~/internal/ioutil.CopyBuffer")) == 0 {
+							if sf == nil || !isCall || !inModule(sf) || !c11Reaches(sf, "~/internal/ioutil.CopyBuffer", 2) {
 								continue
 							}
 							for _, a := range svc.Call.Args {
@@ -912,6 +1046,19 @@ func c12NonNilBehind(v ssa.Value, from Edge, want ssa.Value, depth int) bool {
 func c12IsZero(v ssa.Value) bool {
 	k, ok := v.(*ssa.Const)
 	if !ok {
+		// `var zero T` used as a value: a load of a local that is never stored to
+		if ld, isLoad := v.(*ssa.UnOp); isLoad && ld.Op == token.MUL {
+			if a, isAlloc := ld.X.(*ssa.Alloc); isAlloc {
+				for _, ref := range *a.Referrers() {
+					switch ref.(type) {
+					case *ssa.UnOp, *ssa.DebugRef:
+					default:
+						return false
+					}
+				}
+				return true
+			}
+		}
 		return false
 	}
 	if k.Value == nil {
@@ -926,31 +1073,230 @@ func c12IsZero(v ssa.Value) bool {
 	return false
 }
 
+// c12FlagSets: for every function of the package, the values that denote the
+// option Store.<field>: loads of the field, parameters that receive such a
+// value at a static call, and loads of variables captured by a closure that
+// hold such a parameter (fixpoint over the package).
+func c12FlagSets(fns []*ssa.Function, field string) map[*ssa.Function]map[ssa.Value]bool {
+	sets := map[*ssa.Function]map[ssa.Value]bool{}
+	add := func(f *ssa.Function, v ssa.Value) bool {
+		if sets[f] == nil {
+			sets[f] = map[ssa.Value]bool{}
+		}
+		changed := false
+		for a := range Aliases(v) {
+			if !sets[f][a] {
+				sets[f][a] = true
+				changed = true
+			}
+		}
+		return changed
+	}
+	for _, f := range fns {
+		for v := range c11FieldReads(f, field) {
+			add(f, v)
+		}
+	}
+	for round := 0; round < 6; round++ {
+		changed := false
+		for _, f := range fns {
+			cur := sets[f]
+			if len(cur) == 0 {
+				continue
+			}
+			is := func(v ssa.Value) bool {
+				rs := Roots(v)
+				if len(rs) == 0 {
+					return false
+				}
+				for _, r := range rs {
+					if !cur[r] {
+						return false
+					}
+				}
+				return true
+			}
+			AllInstrs(f, func(in ssa.Instruction) {
+				switch u := in.(type) {
+				case ssa.CallInstruction:
+					g := StaticCallee(u)
+					if g == nil || len(g.Blocks) == 0 {
+						return
+					}
+					for i, a := range u.Common().Args {
+						if i < len(g.Params) && (cur[a] || is(a)) && add(g, g.Params[i]) {
+							changed = true
+						}
+					}
+				case *ssa.Store:
+					// a flag kept in a cell that a closure captures
+					cell, ok := u.Addr.(*ssa.Alloc)
+					if !ok || !(cur[u.Val] || is(u.Val)) {
+						return
+					}
+					for _, ref := range *cell.Referrers() {
+						mc, ok := ref.(*ssa.MakeClosure)
+						if !ok {
+							continue
+						}
+						g := mc.Fn.(*ssa.Function)
+						for i, bnd := range mc.Bindings {
+							if bnd != ssa.Value(cell) {
+								continue
+							}
+							for _, r2 := range *g.FreeVars[i].Referrers() {
+								if ld, ok := r2.(*ssa.UnOp); ok && ld.Op == token.MUL && add(g, ld) {
+									changed = true
+								}
+							}
+						}
+					}
+				}
+			})
+		}
+		if !changed {
+			break
+		}
+	}
+	return sets
+}
+
+// c12ExpandValue resolves a value across helper boundaries: a parameter of an
+// unexported function becomes the arguments at its call sites, the result of
+// an in-package helper becomes the values it returns.
+func c12ExpandValue(fns []*ssa.Function, v ssa.Value, depth int, seen map[ssa.Value]bool, out *[]ssa.Value) {
+	for _, r := range Roots(v) {
+		if seen[r] || depth > 4 {
+			*out = append(*out, r)
+			continue
+		}
+		seen[r] = true
+		switch u := r.(type) {
+		case *ssa.Parameter:
+			f := u.Parent()
+			idx := -1
+			for i, q := range f.Params {
+				if q == u {
+					idx = i
+				}
+			}
+			n := 0
+			if f.Parent() == nil && (f.Object() == nil || !f.Object().Exported()) {
+				for _, g := range fns {
+					for _, call := range Calls(g, func(string) bool { return true }) {
+						if StaticCallee(call) == f && idx >= 0 && idx < len(call.Common().Args) {
+							n++
+							c12ExpandValue(fns, call.Common().Args[idx], depth+1, seen, out)
+						}
+					}
+				}
+			}
+			if n == 0 {
+				*out = append(*out, r)
+			}
+		case *ssa.Extract:
+			call, ok := u.Tuple.(*ssa.Call)
+			g := (*ssa.Function)(nil)
+			if ok {
+				g = StaticCallee(call)
+			}
+			if g == nil || !inModule(g) || len(g.Blocks) == 0 {
+				*out = append(*out, r)
+				continue
+			}
+			for _, ret := range Returns(g) {
+				if s, isStr := constString(ret.Results[u.Index]); isStr && s == "" {
+					continue // the value returned next to an error
+				}
+				c12ExpandValue(fns, ret.Results[u.Index], depth+1, seen, out)
+			}
+		case *ssa.Call:
+			g := StaticCallee(u)
+			if g != nil && inModule(g) && len(g.Blocks) > 0 && g.Signature.Results().Len() == 1 {
+				for _, ret := range Returns(g) {
+					c12ExpandValue(fns, ret.Results[0], depth+1, seen, out)
+				}
+				continue
+			}
+			*out = append(*out, r)
+		default:
+			*out = append(*out, r)
+		}
+	}
+}
+
 func c12R3(c *Ctx, fns []*ssa.Function) {
 	const R3 = "C12.R3.reproducible-headers"
 	c.Expect(R3, 8)
 	var W *ssa.Function
 	for _, f := range fns {
-		if f.Parent() != nil && len(CallsTo(f, "(*archive/tar.Writer).WriteHeader")) > 0 {
+		if len(CallsTo(f, "(*archive/tar.Writer).WriteHeader")) > 0 {
 			W = f
 		}
 	}
 	if W == nil {
-		c.LostAnchor(R3, "walk closure: closure of ~/content/file calling (*tar.Writer).WriteHeader")
+		c.LostAnchor(R3, "tar walk step: function of ~/content/file calling (*tar.Writer).WriteHeader")
 		return
 	}
-	T := W.Parent()
-	wn := FnName(W)
+	// obligations are keyed by the tar writer (the function calling tar.NewWriter), whatever closure or
+	// helper the header code lives in
+	T := W
+	for T.Parent() != nil {
+		T = T.Parent()
+	}
+	if ts := c12FnsCalling(fns, "archive/tar.NewWriter"); len(ts) > 0 {
+		T = ts[0]
+		for T.Parent() != nil {
+			T = T.Parent()
+		}
+	}
+	wn := FnName(T)
 	wh := CallsTo(W, "(*archive/tar.Writer).WriteHeader")[0].(*ssa.Call)
-	hdr := wh.Call.Args[1]
+	// X: the function in which the header is filled in; hdr: the header there; done: the points at
+	// which the header is complete (WriteHeader itself, or the successful returns of a builder helper)
+	X, hdr := W, wh.Call.Args[1]
+	done := []ssa.Instruction{wh}
+	where := "WriteHeader"
+	if rs := Roots(hdr); len(rs) == 1 {
+		if ex, ok := rs[0].(*ssa.Extract); ok && ex.Index == 0 {
+			if bc, ok := ex.Tuple.(*ssa.Call); ok {
+				if B := StaticCallee(bc); B != nil && fnPkgPath(B) == fnPkgPath(W) && len(B.Blocks) > 0 {
+					if d, _ := c11SuccessDominates(bc, wh); d {
+						var rets []ssa.Instruction
+						var hv ssa.Value
+						same := true
+						for _, a := range c11SuccessAtoms(B) {
+							rets = append(rets, a.Ret)
+							v := a.Ret.Results[0]
+							if hv != nil && !c11SameRoots(hv, v) {
+								same = false
+							}
+							hv = v
+						}
+						if same && hv != nil {
+							X, hdr, done, where = B, hv, rets, "the successful return of "+FnName(B)+" (whose result goes to WriteHeader)"
+						}
+					}
+				}
+			}
+		}
+	}
 	stores := func(field string) []*ssa.Store {
 		var out []*ssa.Store
-		for _, s := range c12FieldStores(W, "archive/tar.Header", field) {
+		for _, s := range c12FieldStores(X, "archive/tar.Header", field) {
 			if c11SameRoots(s.Addr.(*ssa.FieldAddr).X, hdr) {
 				out = append(out, s)
 			}
 		}
 		return out
+	}
+	allDone := func(cutOf func() *cut) bool {
+		for _, d := range done {
+			if !MustPass(d, cutOf()) {
+				return false
+			}
+		}
+		return len(done) > 0
 	}
 	for _, f := range []string{"Uid", "Gid", "Uname", "Gname"} {
 		var zs []ssa.Instruction
@@ -958,52 +1304,23 @@ func c12R3(c *Ctx, fns []*ssa.Function) {
 		for _, s := range stores(f) {
 			if c12IsZero(s.Val) {
 				zs = append(zs, s)
-			} else if Reachable(s, wh) {
-				ok = false
-			}
-		}
-		ok = ok && len(zs) > 0 && MustPass(wh, newCut().Instr(zs...))
-		c.Check(R3, wn+"|zeroed:"+f, wh.Pos(), ok, ifelse(ok, "header."+f+" is cleared on every path to WriteHeader", "header."+f+" of the packing user leaks into the tarball: two equal trees packed by different users give different descriptors"))
-	}
-	// the reproducibility switch: the tar writer's bool parameter that the packer feeds from Store.TarReproducible
-	var flag map[ssa.Value]bool
-	for _, g := range fns {
-		for _, call := range Calls(g, func(string) bool { return true }) {
-			if StaticCallee(call) != T {
 				continue
 			}
-			for i, a := range call.Common().Args {
-				if len(c11FieldReads(g, "~/content/file.Store.TarReproducible")) > 0 && c11DerivesFrom(a, c11FieldReads(g, "~/content/file.Store.TarReproducible")) && i < len(T.Params) {
-					// the cell of that parameter and the closure's loads of it
-					prm := T.Params[i]
-					for _, ref := range *prm.Referrers() {
-						st, ok := ref.(*ssa.Store)
-						if !ok {
-							continue
-						}
-						for _, fv := range W.FreeVars {
-							for _, b := range freeVarBindings(fv) {
-								if b == st.Addr {
-									flag = map[ssa.Value]bool{}
-									for _, r2 := range *fv.Referrers() {
-										if ld, ok := r2.(*ssa.UnOp); ok && ld.Op == token.MUL {
-											for al := range Aliases(ld) {
-												flag[al] = true
-											}
-										}
-									}
-								}
-							}
-						}
-					}
+			for _, d := range done {
+				if Reachable(s, d) {
+					ok = false
 				}
 			}
 		}
+		ok = ok && len(zs) > 0 && allDone(func() *cut { return newCut().Instr(zs...) })
+		c.Check(R3, wn+"|zeroed:"+f, wh.Pos(), ok, ifelse(ok, "header."+f+" is cleared on every path to "+where, "header."+f+" of the packing user leaks into the tarball: two equal trees packed by different users give different descriptors"))
 	}
-	if flag == nil {
-		c.LostAnchor(R3, "the tar writer's parameter fed from Store.TarReproducible, as seen by the walk closure")
+	// the reproducibility switch, followed from Store.TarReproducible through parameters and captured variables
+	flag := c12FlagSets(fns, "~/content/file.Store.TarReproducible")[X]
+	if len(flag) == 0 {
+		c.LostAnchor(R3, "Store.TarReproducible does not reach the function that fills in the tar header ("+FnName(X)+")")
 	} else {
-		onT, onF := BoolTests(W, flag)
+		onT, onF := BoolTests(X, flag)
 		for _, f := range []string{"ModTime", "AccessTime", "ChangeTime"} {
 			var zs []ssa.Instruction
 			for _, s := range stores(f) {
@@ -1011,52 +1328,74 @@ func c12R3(c *Ctx, fns []*ssa.Function) {
 					zs = append(zs, s)
 				}
 			}
-			ok := len(onT) > 0 && len(zs) > 0 && MustPass(wh, newCut().Instr(zs...).Edges(onF...))
+			ok := len(onT) > 0 && len(zs) > 0 && allDone(func() *cut { return newCut().Instr(zs...).Edges(onF...) })
 			for _, e := range onT {
-				if reach(e.To, 0, wh, newCut().Instr(zs...)) {
-					ok = false
+				for _, d := range done {
+					if reach(e.To, 0, d, newCut().Instr(zs...)) {
+						ok = false
+					}
 				}
 			}
-			c.Check(R3, wn+"|zeroed-when-reproducible:"+f, wh.Pos(), ok, ifelse(ok, "header."+f+" is cleared on the TarReproducible edge before WriteHeader", "with TarReproducible set, header."+f+" still reaches the tarball: equal trees give different descriptors depending on timestamps"))
+			c.Check(R3, wn+"|zeroed-when-reproducible:"+f, wh.Pos(), ok, ifelse(ok, "header."+f+" is cleared on the TarReproducible edge before "+where, "with TarReproducible set, header."+f+" still reaches the tarball: equal trees give different descriptors depending on timestamps"))
 		}
 	}
-	// entry name
+	// entry name: ToSlash(Join(prefix, Rel(root, path))), possibly computed by a helper and handed over
 	okName := false
 	for _, s := range stores("Name") {
-		rs := Roots(s.Val)
-		if len(rs) != 1 {
-			continue
-		}
-		ts, ok := rs[0].(*ssa.Call)
-		if !ok || CalleeName(ts) != "path/filepath.ToSlash" {
-			continue
-		}
-		rel := map[ssa.Value]bool{}
-		for _, r := range CallsTo(W, "path/filepath.Rel") {
-			a1 := Roots(r.Common().Args[1])
-			if len(a1) == 1 && len(W.Params) > 0 && a1[0] == ssa.Value(W.Params[0]) {
-				if v := ResultOf(r, 0); v != nil {
-					rel[v] = true
+		var vals []ssa.Value
+		c12ExpandValue(fns, s.Val, 0, map[ssa.Value]bool{}, &vals)
+		good := len(vals) > 0
+		for _, v := range vals {
+			ts, ok := v.(*ssa.Call)
+			if !ok || CalleeName(ts) != "path/filepath.ToSlash" {
+				good = false
+				continue
+			}
+			F := ts.Parent()
+			rel := map[ssa.Value]bool{}
+			for _, r := range CallsTo(F, "path/filepath.Rel") {
+				if rv := ResultOf(r, 0); rv != nil {
+					rel[rv] = true
 				}
 			}
-		}
-		joined := false
-		for _, j := range CallsTo(W, "path/filepath.Join") {
-			if v := j.Value(); v != nil && c11DerivesFrom(ts.Call.Args[0], map[ssa.Value]bool{v: true}) && c11DerivesFrom(v, rel) {
+			joined := false
+			for _, j := range CallsTo(F, "path/filepath.Join") {
+				jv := j.Value()
+				if jv == nil || !c11DerivesFrom(ts.Call.Args[0], map[ssa.Value]bool{jv: true}) || !c11DerivesFrom(jv, rel) {
+					continue
+				}
 				var ops []ssa.Value
-				c11Operands(v, &ops, map[ssa.Value]bool{}, 0)
+				c11Operands(jv, &ops, map[ssa.Value]bool{}, 0)
 				for _, o := range ops {
-					if ld, ok := o.(*ssa.UnOp); ok {
-						if _, isFV := ld.X.(*ssa.FreeVar); isFV {
+					switch u := o.(type) {
+					case *ssa.Parameter:
+						joined = true // the prefix (the Rel operands are parameters too; a second, non-Rel operand is required below)
+					case *ssa.UnOp:
+						if _, isFV := u.X.(*ssa.FreeVar); isFV {
 							joined = true
 						}
 					}
 				}
+				// Join must have an operand besides the Rel result
+				var els []ssa.Value
+				for _, a := range j.Common().Args {
+					c11SliceElems(a, &els)
+				}
+				other := false
+				for _, e := range els {
+					if !c11DerivesFrom(e, rel) {
+						other = true
+					}
+				}
+				joined = joined && other
+			}
+			if !joined {
+				good = false
 			}
 		}
-		okName = joined && MustPass(wh, newCut().Instr(s))
+		okName = good && allDone(func() *cut { return newCut().Instr(s) })
 	}
-	c.Check(R3, wn+"|name-is-slash-prefix-rel", wh.Pos(), okName, ifelse(okName, "header.Name = ToSlash(Join(prefix, Rel(root, path))) on every path to WriteHeader",
+	c.Check(R3, wn+"|name-is-slash-prefix-rel", wh.Pos(), okName, ifelse(okName, "header.Name = ToSlash(Join(prefix, Rel(root, path))) on every path to "+where,
 		"the entry name is not the slash-joined prefix/rel(root,path): entries are not found under the directory's name on unpack (or differ per OS)"))
 }
 
@@ -1336,16 +1675,16 @@ var c12Mutants = []Mutant{
 	// R3
 	{Name: "uid-not-zeroed", File: "content/file/utils.go",
 		Old: "\t\theader.Uid = 0\n", New: "",
-		Expect: "C12.R3.reproducible-headers|~/content/file.tarDirectory$2|zeroed:Uid"},
+		Expect: "C12.R3.reproducible-headers|~/content/file.tarDirectory|zeroed:Uid"},
 	{Name: "modtime-kept", File: "content/file/utils.go",
 		Old: "\t\t\theader.ModTime = time.Time{}\n", New: "",
-		Expect: "C12.R3.reproducible-headers|~/content/file.tarDirectory$2|zeroed-when-reproducible:ModTime"},
+		Expect: "C12.R3.reproducible-headers|~/content/file.tarDirectory|zeroed-when-reproducible:ModTime"},
 	{Name: "times-zeroing-inverted", File: "content/file/utils.go",
 		Old: "\t\tif removeTimes {", New: "\t\tif !removeTimes {",
-		Expect: "C12.R3.reproducible-headers|~/content/file.tarDirectory$2|zeroed-when-reproducible"},
+		Expect: "C12.R3.reproducible-headers|~/content/file.tarDirectory|zeroed-when-reproducible"},
 	{Name: "name-not-slashed", File: "content/file/utils.go",
 		Old: "\t\tname = filepath.ToSlash(name)\n", New: "",
-		Expect: "C12.R3.reproducible-headers|~/content/file.tarDirectory$2|name-is-slash-prefix-rel"},
+		Expect: "C12.R3.reproducible-headers|~/content/file.tarDirectory|name-is-slash-prefix-rel"},
 	// R4
 	{Name: "restore-error-dropped", File: "content/file/file.go",
 		Old:    "\t\tif err := s.restoreDuplicates(ctx, expected); err != nil {\n\t\t\treturn fmt.Errorf(\"failed to restore duplicated file: %w\", err)\n\t\t}\n",
